@@ -37,7 +37,8 @@
 (*                 "grp", else directly under the root), mode] >>,         *)
 (*   inb   |-> << [lvl, name, addr ("tcp"|"ipc"), tr, alias (""=none),     *)
 (*                 xt (""|"tcp"|"ipc": explicit bind target)] >>,          *)
-(*   outb  |-> << [lvl, name, tk ("path"|"alias"|"xtcp"|"xipc"), tt, tn,   *)
+(*   outb  |-> << [lvl, name, tk ("path"|"alias"|"xtcp"|"xipc"|"xupper"),   *)
+(*                 tt, tn,                                                 *)
 (*                 ta, tr] >>]                                             *)
 (*   props |-> << [task, name] >>  stale chans.<name>.0.* defaults in the    *)
 (*                 `properties:` of the task's template]                     *)
@@ -52,9 +53,14 @@ CONSTANTS Code_ExplicitInboundAdvertisesDynamic, Code_SameTaskAliasLastWins
 ---------------------------------------------------------------------------
 \* vocabulary of addresses (the only place where address strings are built)
 XTcpPort == 12345
-XAddr(x) == IF x = "tcp" THEN "tcp://*:" \o ToString(XTcpPort) ELSE "ipc:///tmp/c13x"   \* explicit bind targets
+\* (explicit addresses carry upper- and lower-case characters: they must reach the task unchanged)
+XAddr(x) == IF x = "tcp" THEN "tcp://*:" \o ToString(XTcpPort) ELSE "ipc:///tmp/C13-Bind/X.sock"   \* explicit bind targets
 XScheme(x) == x
-OutXAddr(tk) == IF tk = "xtcp" THEN "tcp://far:7777" ELSE "ipc:///tmp/c13y"              \* explicit connect targets
+OutXAddr(tk) == IF tk = "xtcp" THEN "tcp://Far-Gateway.CERN.ch:7777" ELSE "ipc:///tmp/C13-Conn/Y.sock"   \* explicit connect targets
+\* connect target kind "xupper": an address whose SCHEME is spelled in upper case.  outbound.go tests
+\* strings.HasPrefix(target, "tcp://") / "ipc://" on the target as written: it is not an explicit
+\* address, it is matched against the bind map like a role path, matches nothing => CONFIGURE fails.
+OutXUpper == "TCP://Far-Gateway.CERN.ch:7777"
 OutXScheme(tk) == IF tk = "xtcp" THEN "tcp" ELSE "ipc"
 BoundTcp(p) == "tcp://*:" \o ToString(p)
 TargetTcp(h, p) == "tcp://" \o h \o ":" \o ToString(p)
